@@ -262,3 +262,38 @@ def run(ctx, rep):
     from ..interp import Program as _P
     key_rule(ctx.lib, _P(ctx.lib), rep, 'C04.K')
     rep.count('leaks (request classes some API call can leave unsynced)', len([x for x in d.ustar if x[0] == 'U']))
+    flusher_serialisation(ctx.lib, rep, 'C04.S')
+
+
+def flusher_serialisation(f, rep, rid):
+    """the function that takes the flush mutex runs every flushing phase under it: two flushers must not
+    interleave (the second one sees dirty flags already cleared by the first and writes dependent tables
+    before the first one's writes are on disk)"""
+    from ..interp import Program, Interp, short
+    from ..locks import LockDomain
+    from .. import api
+    rep.rule(rid, 'every asynchronous phase of the routine that owns the flush mutex is entered with the mutex held')
+    P = Program(f)
+    d = LockDomain(P)
+    ip = Interp(P, d)
+    for e in api.CONCURRENT_OPS:
+        ip.run(api.dev_method(f, e))
+    owners = set(d.acq_by.get('flush', ()))
+    rep.floor('routines running phases under the flush mutex', len(owners), 1)
+    n = 0
+    for (caller, callee), hs in sorted(d.enter_by.items()):
+        if caller not in owners:
+            continue
+        cb = [b for b in f.body_list if short(b.path) == callee and b.is_coroutine]
+        if not cb:
+            continue        # synchronous helpers do not suspend
+        n += 1
+        ok = all(('flush', 'mutex') in h for h in hs)
+        rep.ob(rid, '%s -> %s' % (caller, callee), ok, 'entered with the flush mutex held in %d context(s)' % len(hs) if ok else
+               'entered without the flush mutex in some context')
+        if not ok:
+            rep.violation(rid, '%s:%s->%s' % (rid, caller, callee), '',
+                          '%s runs %s without holding the flush mutex it takes elsewhere: a second flusher can run in between, '
+                          'find the dirty flags already cleared and write dependent tables before the first flusher\'s writes '
+                          'are on disk' % (caller, callee))
+    rep.floor('flush phases checked', n, 2)
